@@ -7,6 +7,7 @@ verus! {
 //@include prelude.rs
 //@include iter.rs
 //@include btree.rs
+//@include btree_iter.rs
 //@include baseunit.rs
 //@part btree_merge
 //@part dims
